@@ -157,7 +157,12 @@ class StmtMixin:
         if st.exc is None:
             cur = getattr(self, "_current_exc", None)
             raise _Raise(cur if cur is not None else SNew("Exception"), st)
-        v = self.eval(st.exc)
+        # the text of an error message is never decided on: str() of a many-kinded value inside it stays one opaque piece
+        self.run.__dict__["in_raise"] = self.run.__dict__.get("in_raise", 0) + 1
+        try:
+            v = self.eval(st.exc)
+        finally:
+            self.run.__dict__["in_raise"] -= 1
         if isinstance(v, SExtern) and v.mod == "builtins":
             v = SNew(v.name or "Exception")
         if isinstance(v, SClass):
